@@ -4,23 +4,28 @@ import Driver.Pure
 import Driver.Layers
 import Driver.OS
 import Driver.BFS
+import Driver.Listing
 open Driver
 
-def dispatch (st : BState) (fs : List (List Char)) : BState × String :=
+def dispatch (stl : BState × LState) (fs : List (List Char)) : (BState × LState) × String :=
+  let st := stl.1
   match pureCmd fs with
-  | some out => (st, outFields out)
+  | some out => (stl, outFields out)
   | none =>
   match layerCmd fs with
-  | some out => (st, outFields out)
+  | some out => (stl, outFields out)
   | none =>
   match osCmd { fs := st.w.fs } fs with
-  | some (st', out) => ({ st with w := { st.w with fs := st'.fs } }, outFields out)
+  | some (st', out) => (({ st with w := { st.w with fs := st'.fs } }, stl.2), outFields out)
   | none =>
   match bfsCmd st fs with
-  | some (st', out) => (st', outFields out)
-  | none => (st, "bad-op")
+  | some (st', out) => ((st', stl.2), outFields out)
+  | none =>
+  match listCmd stl.2 fs with
+  | some (l', out) => ((st, l'), outFields out)
+  | none => (stl, "bad-op")
 
-partial def loop (hin hout : IO.FS.Stream) (st : BState) : IO Unit := do
+partial def loop (hin hout : IO.FS.Stream) (st : BState × LState) : IO Unit := do
   let line ← hin.getLine
   if line.isEmpty then return ()
   let line := if line.endsWith "\n" then (line.dropEnd 1).toString else line
@@ -31,5 +36,5 @@ partial def loop (hin hout : IO.FS.Stream) (st : BState) : IO Unit := do
 def main : IO Unit := do
   let hin ← IO.getStdin
   let hout ← IO.getStdout
-  loop hin hout {}
+  loop hin hout ({}, {})
   hout.flush
